@@ -205,6 +205,10 @@ class PathState:
         return lo + i
 
 
+# the path state of the path being executed (harness builders that need fresh symbols without being handed the state read it)
+CURRENT = [None]
+
+
 class Explorer:
     def __init__(self, program, models, seed=0, max_paths=200000, max_steps=400000, query_timeout_ms=60000):
         self.program = program
@@ -223,6 +227,7 @@ class Explorer:
 
     def run_one(self, prefix, build, on_path):
         st = PathState(self, prefix)
+        CURRENT[0] = st
         it = Interp(self.program, st, self.models, self.stats)
         try:
             run = build(st, it)
@@ -702,14 +707,15 @@ class Interp:
                 return (va << (vb % bits)) & mask
             if op in ("Shr", "ShrUnchecked"):
                 return (sa >> (vb % bits)) & mask
-            if op == "Div":
+            if op in ("Div", "Rem"):
                 if sb == 0:
-                    raise PanicPath("attempt to divide by zero")
-                return int(sa / sb) & mask
-            if op == "Rem":
-                if sb == 0:
-                    raise PanicPath("attempt to calculate the remainder with a divisor of zero")
-                return (sa - sb * int(sa / sb)) & mask
+                    raise PanicPath("attempt to divide by zero" if op == "Div" else "attempt to calculate the remainder with a divisor of zero")
+                q = abs(sa) // abs(sb)           # truncating division on exact integers (a float quotient loses bits beyond 2^53)
+                if (sa < 0) != (sb < 0):
+                    q = -q
+                if signed and q > (1 << (bits - 1)) - 1:
+                    raise PanicPath("attempt to divide with overflow" if op == "Div" else "attempt to calculate the remainder with overflow")
+                return (q if op == "Div" else sa - sb * q) & mask
             raise Unsupported("binop %s" % op)
         za, zb = bv(va, bits), bv(vb, bits)
         if op == "Eq":
